@@ -118,6 +118,12 @@ func (s *c32Sched) spawn(tid string, body func()) {
 	synctest.Wait()
 }
 
+func (s *c32Sched) isEnded() bool {
+	s.mu.Lock()
+	defer s.mu.Unlock()
+	return s.ended
+}
+
 func (s *c32Sched) where(tid string) string {
 	s.mu.Lock()
 	defer s.mu.Unlock()
@@ -318,6 +324,9 @@ func c32RunBehaviour(b *c32Behaviour) (events []map[string]any, outcome string) 
 	s.spawn("u", func() {
 		for g := 1; g <= nswaps; g++ {
 			s.hook("swap")
+			if s.isEnded() {
+				return
+			}
 			code := 14
 			if len(b.Codes) > 0 {
 				code = b.Codes[(g-1)%len(b.Codes)]
@@ -357,8 +366,9 @@ func c32RunBehaviour(b *c32Behaviour) (events []map[string]any, outcome string) 
 
 	outcome = "ok"
 	updating := 0
-stepLoop:
-	for i, st := range b.Steps {
+	// exec performs one step (thread step or environment action), records the Level-A
+	// observations around it and returns the model-level pcs at the following quiescence.
+	exec := func(st *c32Step) (map[string]string, error) {
 		s.log(map[string]any{"ev": "at", "t": st.T, "p": st.P, "arg": st.Arg})
 		var err error
 		switch st.P {
@@ -391,8 +401,7 @@ stepLoop:
 			err = s.step(st.T, st.P)
 		}
 		if err != nil {
-			outcome = fmt.Sprintf("drift: step %d: %v", i, err)
-			break
+			return nil, err
 		}
 		pcs := observe()
 		switch st.P {
@@ -400,6 +409,18 @@ stepLoop:
 			s.log(map[string]any{"ev": "upd_end", "g": updating})
 		case "cancel":
 			s.log(map[string]any{"ev": "cancel_done", "r": st.Arg})
+		}
+		return pcs, nil
+	}
+	drifted := ""
+stepLoop:
+	for i := range b.Steps {
+		st := &b.Steps[i]
+		pcs, err := exec(st)
+		if err != nil {
+			outcome = fmt.Sprintf("drift: step %d: %v", i, err)
+			drifted = st.T
+			break
 		}
 		// Level I: compare the private state with the specification's state.
 		if st.Exp != nil {
@@ -431,9 +452,42 @@ stepLoop:
 						outcome = fmt.Sprintf("nondet: step %d (%s@%s) select chose the other ready case", i, st.T, st.P)
 					} else {
 						outcome = fmt.Sprintf("drift: step %d (%s@%s) %s = %v, spec says %v", i, st.T, st.P, k, got[k], want)
+						drifted = st.T
 					}
 					break stepLoop
 				}
+			}
+		}
+	}
+	// The code left the model: the schedule cannot be followed any further.  Keep going for a
+	// few more steps, still one goroutine at a time (so the monitor's observations stay exact):
+	// the pick goroutines first (the one that drifted first), then the updater.
+	if drifted != "" {
+		order := append([]string{drifted}, names...)
+		for k := 0; k < 12; k++ {
+			var st *c32Step
+			for _, r := range order {
+				switch at := s.where(r); at {
+				case "start", "load", "wait", "pick", "ready":
+					st = &c32Step{T: r, P: at}
+				}
+				if st != nil {
+					break
+				}
+			}
+			if st == nil {
+				switch at := s.where("u"); at {
+				case "swap":
+					st = &c32Step{T: "u", P: "swap", Arg: "nosc"}
+				case "close":
+					st = &c32Step{T: "u", P: "close"}
+				}
+			}
+			if st == nil {
+				break
+			}
+			if _, err := exec(st); err != nil {
+				break
 			}
 		}
 	}
@@ -442,15 +496,14 @@ stepLoop:
 	s.mu.Lock()
 	s.ended = true
 	s.mu.Unlock()
+	func() {
+		defer func() { recover() }()
+		pw.close() // a pick that spins (mutants) ends with ErrClientConnClosing
+	}()
 	s.release()
 	for _, c := range cancels {
 		c()
 	}
-	synctest.Wait()
-	func() {
-		defer func() { recover() }()
-		pw.close()
-	}()
 	for _, pg := range gens {
 		c32SafeClose(pg.blockingCh)
 	}
